@@ -196,7 +196,7 @@ void h_fb_write_data(void) { FSETUP; __CPROVER_assume(W_n >= 1 && W_n <= 600); u
 '''
 UNITS = [
     dict(name='flash_buffer', extracts={k: v for k, v in EX.items() if not k.startswith(('ct_', 'read_address', 'write_', 'read_data', 'find_next', 'request_error', 'nflash'))},
-         code='#include <stdlib.h>\n' + CODE, defines=['BT_NEED_COPY', 'BT_BYTES_MAX=600'], object_bits=10, thorough_defines=['PAGE_MAX=256'],
+         code='#include <stdlib.h>\n' + CODE, defines=['BT_NEED_COPY', 'BT_BYTES_MAX=600'], object_bits=10, thorough_defines=['PAGE_MAX=128'],
          enforce=['wl_base', 'wl_step', 'fb_ctor', 'fb_free_size', 'fb_set_start_address', 'fb_flush', 'fb_write_data'],
          replace=['acceptable_rest', 'h_read_mem', 'h_start_flash', 'h_checksum32_buf', 'bt_copy_u8', 'fb_flush'], flags_off=['--unsigned-overflow-check']),
 ]
